@@ -19,8 +19,16 @@ loop fuel the model needs; they are spelled out in `Lemmas/Parse*.lean`.
 mis-handles them; each exclusion has its witness theorem here (`lbracket_atom_witness`,
 `list_literal_witness`). (A third one, the empty literal `{0}`, was repaired by commit e5f2a7d and is now
 inside `string_roundtrip`.)
+
+Pipelines (`pipeline_roundtrip`, `pipeline_command_independent`): one parser serves a connection and the
+reader goroutine parses the next command while the session still executes the previous one. The theorems
+say that the i-th `Parse` returns the i-th written command whatever was parsed before; that a returned
+command stays what it was is a property of values in the model and of memory in Go: fact
+`literal_result_fresh` plus the `c10pipe` correspondence dialect (every command of a pipelined stream is
+rendered only after the last one was parsed) and the wire oracle `c10pipeline`.
 -/
-import GluonModel.Lemmas.ParseId
+import GluonModel.Lemmas.ParsePipe
+import GluonModel.Generated.Facts.ParseAlias
 
 namespace Gluon.C10
 open Gluon.Parse
@@ -183,5 +191,52 @@ example : print (fun _ => 1) ⟨kw "a1", .login (kw "joe") (kw "p w")⟩ = kw "a
   decide +kernel
 example : print (fun _ => 2) ⟨kw "a1", .login (kw "joe") (kw "pw")⟩ = kw "a1 login {3}\r\njoe {2}\r\npw\r\n" := by
   decide +kernel
+
+/-! ## pipelines: one parser per connection -/
+
+/-- **A command parses to the command that was written wherever it stands on the connection.** From
+every parser state `s` — in particular the state any earlier `Parse` calls on the same parser left behind
+(previous/current token, current byte, number of continuation requests sent) — whose unread input starts
+with the printed line, `Parse` returns exactly that command and consumes exactly that line. Nothing a
+previous command contained (literals of any length, its keyword case, its encoding choices) has any
+influence on how the next one is read. -/
+theorem pipeline_command_independent (fuel : Nat) (c : Choices) (cmd : Command) (h : CommandOK fuel cmd)
+    (tail : Bytes) (s : PState) (hs : s.rest = print c cmd ++ tail) :
+    ∃ s', parseLine fuel s = .ok cmd s' ∧ s'.rest = tail :=
+  parseLine_print_from fuel c cmd h tail s hs
+
+/-- **Pipelining.** A client writes any number of valid commands back to back, each with its own encoding
+and case choices, without waiting for replies (`printStream`); the reader loop of the session
+(`parseStream`: `Parse` called again and again on ONE parser) returns exactly these commands, in this
+order, none dropped, merged, split or altered, and leaves exactly what followed them (`tail`) unread. -/
+theorem pipeline_roundtrip (fuel : Nat) (l : List (Choices × Command))
+    (h : ∀ x ∈ l, CommandOK fuel x.2) (tail : Bytes) (s : PState) (hs : s.rest = printStream l ++ tail) :
+    ∃ s', parseStream fuel l.length s = (l.map (·.2), s') ∧ s'.rest = tail :=
+  parseStream_print fuel l h tail s hs
+
+/-- the same from the start of a connection -/
+theorem pipeline_roundtrip_init (fuel : Nat) (l : List (Choices × Command))
+    (h : ∀ x ∈ l, CommandOK fuel x.2) (tail : Bytes) :
+    ∃ s', parseStream fuel l.length (PState.init (printStream l ++ tail)) = (l.map (·.2), s') ∧ s'.rest = tail :=
+  parseStream_print fuel l h tail _ rfl
+
+/-- a pipeline of an APPEND (the one payload that keeps a byte slice) followed by a LOGIN whose arguments
+are literals, then a NOOP: what the model's reader loop returns -/
+example : (match (parseStream 200 3 (PState.init (kw "a APPEND x {3}\r\nabc\r\nb LOGIN {1}\r\nu {2}\r\npw\r\nc noop\r\n"))).1 with
+    | [⟨a, .append m [] none lit⟩, ⟨b, .login u p⟩, ⟨c, .noop⟩] =>
+      a == kw "a" && m == kw "x" && lit == kw "abc" && b == kw "b" && u == kw "u" && p == kw "pw" && c == kw "c"
+    | _ => false) = true := by
+  decide +kernel
+
+example : printStream [(fun _ => 2, ⟨kw "a", .login (kw "u") (kw "p")⟩), (fun _ => 0, ⟨kw "b", .noop⟩)] =
+    kw "a login {1}\r\nu {1}\r\np\r\nb noop\r\n" := by decide +kernel
+
+/-- **A returned literal does not share memory with any later one** (regenerated from
+rfcparser/parser.go by harness/facts_c10alias.go): every successful return of `ParseLiteral` hands out a
+slice created in that very call (`Facts.literalOrigins`: a composite literal or `make`), not a buffer
+owned by the parser, a pool or the reader. This is the assumption under which the model's commands — values —
+stand for Go's `command.Command`, whose `Append.Literal` IS that slice (`Facts.payloadByteFields`) and is
+read by the session goroutine while the reader goroutine already parses the next pipelined command. -/
+theorem literal_result_fresh : Facts.literalResultFresh = true := by decide
 
 end Gluon.C10
